@@ -17,8 +17,45 @@ def all_calls_named(tree, *names):
             if isinstance(n, ast.Call) and call_name(n) in names]
 
 
+_SIGS = {}
+
+
+def set_model(model):
+    """Record the positional parameter names of every function of the package
+    by last name, so that arg_of() finds an argument whether the call passes it
+    by position or by keyword."""
+    _SIGS.clear()
+    for q, fi in model.funcs.items():
+        ps = [a.arg for a in fi.node.args.posonlyargs + fi.node.args.args]
+        if fi.cls and ps and ps[0] in ("self", "cls"):
+            ps = ps[1:]
+        _SIGS.setdefault(fi.name, []).append(ps)
+
+
+def _param_name(call, pos):
+    from .srcmodel import call_name
+    cands = _SIGS.get(call_name(call) or "", [])
+    names = {ps[pos] for ps in cands if len(ps) > pos}
+    return names.pop() if len(names) == 1 else None
+
+
+def _param_pos(call, kw):
+    from .srcmodel import call_name
+    cands = _SIGS.get(call_name(call) or "", [])
+    poss = {ps.index(kw) for ps in cands if kw in ps}
+    return poss.pop() if len(poss) == 1 and cands and \
+        all(kw in ps for ps in cands) else None
+
+
 def arg_of(call, pos=None, kw=None):
-    """Argument AST by keyword name, falling back to position."""
+    """Argument AST by keyword name or position; when only one of the two is
+    given, the other is looked up in the callee's signature (all package
+    functions of that name must agree), so f(a, b) and f(a, y=b) are the same
+    call to a rule."""
+    if kw is None and pos is not None:
+        kw = _param_name(call, pos)
+    elif pos is None and kw is not None:
+        pos = _param_pos(call, kw)
     if kw is not None:
         for k in call.keywords:
             if k.arg == kw:
